@@ -502,7 +502,13 @@ func (store dbStore) LoadValidators(height int64) (*types.ValidatorSet, error) {
 			return nil, err
 		}
 
-		vs.IncrementProposerPriority(tmmath.SafeConvertInt32(height - lastStoredHeight)) // mutate
+		// Replay the priority increments one height at a time, exactly as updateState
+		// applied them when the chain advanced from lastStoredHeight to height. A single
+		// IncrementProposerPriority(n) rescales and centers the priorities only once and
+		// does not yield the same set as n calls with 1.
+		for i := tmmath.SafeConvertInt32(height - lastStoredHeight); i > 0; i-- {
+			vs.IncrementProposerPriority(1) // mutate
+		}
 		vi2, err := vs.ToProto()
 		if err != nil {
 			return nil, err
